@@ -3,6 +3,7 @@ package main
 import (
 	"bytes"
 	"context"
+	"encoding/hex"
 	"errors"
 	"fmt"
 	"reflect"
@@ -537,6 +538,32 @@ func (w *world) do(op map[string]J) (res map[string]J) {
 		res["ok"] = err == nil
 		w.stored[get("as")] = buf.Bytes()
 		res["len"] = buf.Len()
+		if op["hex"] == true {
+			res["hex"] = hex.EncodeToString(buf.Bytes())
+		}
+		if v, ok := op["failAt"]; ok && v != nil {
+			// a writer that fails at its k-th Write call
+			fw := &failWriter{failAt: int(v.(float64))}
+			err2 := lib.StoreKnowledgeBaseToWriter(fw, kbName, kbVer)
+			res["failStoreErr"] = err2 != nil
+			res["writes"] = fw.n
+		}
+	case "loadhex":
+		data, _ := hex.DecodeString(get("hex"))
+		if v, ok := op["cut"]; ok && v != nil {
+			data = data[:int(v.(float64))]
+		}
+		lib := ast.NewKnowledgeLibrary()
+		kb, err := lib.LoadKnowledgeBaseFromReader(bytes.NewReader(data), true)
+		res["ok"] = err == nil
+		if err == nil && op["probe"] == true {
+			// what a successfully loaded prefix is worth: can it be instantiated?
+			_, ierr := lib.NewKnowledgeBaseInstance(kb.Name, kb.Version)
+			res["instOk"] = ierr == nil
+			res["nrules"] = len(kb.RuleEntries)
+		}
+	case "wire":
+		res["skip"] = "model only"
 	case "load":
 		lib := w.lib(get("lib"))
 		data := w.stored[get("from")]
@@ -631,4 +658,18 @@ func scalarValue(t J) reflect.Value {
 	v := reflect.New(ty).Elem()
 	build(v, t)
 	return v
+}
+
+type failWriter struct {
+	n      int
+	failAt int
+}
+
+func (f *failWriter) Write(p []byte) (int, error) {
+	k := f.n
+	f.n++
+	if k >= f.failAt {
+		return 0, fmt.Errorf("write %d refused", k)
+	}
+	return len(p), nil
 }
